@@ -1,2 +1,38 @@
 verus! {
 } // verus!
+// deno_ast source positions (opaque): `pos + n`, `pos - n`, and the (line, column) lookup
+#[derive(Clone, Copy)]
+pub struct SourcePos { _p: usize }
+impl std::ops::Add<usize> for SourcePos { type Output = SourcePos; fn add(self, _n: usize) -> SourcePos { unimplemented!() } }
+impl std::ops::Sub<usize> for SourcePos { type Output = SourcePos; fn sub(self, _n: usize) -> SourcePos { unimplemented!() } }
+pub struct SourceTextInfo { _p: usize }
+pub struct LineAndColumnIndex { pub line_index: usize, pub column_index: usize }
+impl SourceTextInfo { pub fn line_and_column_index(&self, _p: SourcePos) -> LineAndColumnIndex { unimplemented!() } }
+pub mod deno_ast { pub use super::{SourcePos, SourceTextInfo}; }
+verus! {
+#[verifier::external_type_specification] #[verifier::external_body] pub struct ExSourcePos(SourcePos);
+#[verifier::external_type_specification] #[verifier::external_body] pub struct ExSourceTextInfo(SourceTextInfo);
+/// byte offset of a source position
+pub uninterp spec fn sp_val(p: SourcePos) -> int;
+/// the (line, character) position of a byte offset in a text (deno_ast `line_and_column_index`)
+pub uninterp spec fn pos_of(ti: SourceTextInfo, off: int) -> Position;
+
+#[verifier::external_type_specification] pub struct ExLineAndColumnIndex(LineAndColumnIndex);
+pub assume_specification[ SourceTextInfo::line_and_column_index ](ti: &SourceTextInfo, p: SourcePos) -> (r: LineAndColumnIndex)
+    ensures r.line_index == pos_of(*ti, sp_val(p)).line, r.column_index == pos_of(*ti, sp_val(p)).character;
+pub uninterp spec fn sp_mk(off: int) -> SourcePos;
+impl vstd::std_specs::ops::AddSpecImpl<usize> for SourcePos {
+    open spec fn obeys_add_spec() -> bool { false }
+    open spec fn add_req(self, rhs: usize) -> bool { true }
+    open spec fn add_spec(self, rhs: usize) -> SourcePos { sp_mk(sp_val(self) + rhs) }
+}
+impl vstd::std_specs::ops::SubSpecImpl<usize> for SourcePos {
+    open spec fn obeys_sub_spec() -> bool { false }
+    open spec fn sub_req(self, rhs: usize) -> bool { true }
+    open spec fn sub_spec(self, rhs: usize) -> SourcePos { sp_mk(sp_val(self) - rhs) }
+}
+pub assume_specification[ <SourcePos as std::ops::Add<usize>>::add ](p: SourcePos, n: usize) -> (r: SourcePos)
+    ensures sp_val(r) == sp_val(p) + n;
+pub assume_specification[ <SourcePos as std::ops::Sub<usize>>::sub ](p: SourcePos, n: usize) -> (r: SourcePos)
+    ensures sp_val(r) == sp_val(p) - n;
+} // verus!
